@@ -18,6 +18,11 @@ CLAIMED = {
    note="trusted: memfd-backed /proc/self/fd paths behave like files for ifstream/ofstream (seek, short read, EOF); libstdc++ number parsing; corruption positions are sampled, only truncation is exhaustive per image; images whose size fields imply >16M-element allocations are skipped in the ASan stage (ASan aborts instead of throwing bad_alloc) and run in the plain stage under RLIMIT_AS",
    technique="deterministic simulation: simulated file layer with exhaustive truncation and seeded corruption fault injection, round-trip reference model, sanitizers inside simulated runs",
    replay="./build/plain/c19 --replay {path}"),
+ "C15": dict(cat="exploration", ref="4 (C15), 2.8",
+   text="History exploration with failing calls as faults: seeded scripts of 2-12 operations on one solver object (all nine solver types, AMG and relaxation preconditioners, both sides, small restart lengths, copied and zero-copy inputs) mix solves, alternative-matrix solves, preconditioner applications and rebuilds with injected failures (zero/NaN/Inf/overflowing inputs, zero alternative matrix, 1-4 iteration budgets, a preconditioner wrapper that throws or writes NaN/Inf at its k-th call); every operation is compared bitwise (x, iterations, residual, exception type) with a freshly constructed object executing that operation alone; zero rhs => zero in 0 iterations; exact guess unchanged in 0 iterations; rhs and matrix arrays (incl. zero-copy user arrays) unmodified. Sampling of histories, not proof.",
+   note="trusted: 'fresh object' model = same constructor arguments, thread count and replayed rebuilds; emin coarsening only at nt=1 (its critical accumulation is schedule dependent, see C09); LGMRES with always_reset=false is exercised but excluded from the equality oracle as documented",
+   technique="deterministic simulation: seeded operation/fault scripts against a fresh-object reference model, bitwise history-independence oracle",
+   replay="./build/plain/c15 --replay {path}"),
 }
 NA_PURE = {
  "C04": "pure function of (matrix, parameters): aggregation is a serial greedy loop, its parallel loops are statically partitioned without reductions; no schedule, fault or history can change the result (thread-count independence of the operators is exercised under C09)",
